@@ -161,7 +161,7 @@ mod proofs {
   }
 
   #[kani::proof]
-  #[kani::unwind(10)]
+  #[kani::unwind(5)]
   fn c04_ops_any_env() {
     let (g, same_text, _) = setup();
     let (base, model0) = base_env(&g);
@@ -202,7 +202,7 @@ mod proofs {
   }
 
   #[kani::proof]
-  #[kani::unwind(10)]
+  #[kani::unwind(5)]
   fn c04_ops_all_env() {
     let (g, same_text, _) = setup();
     let (base, model0) = base_env(&g);
